@@ -323,6 +323,16 @@ func genCG(t *rapid.T) cgCase {
 			c.Guess = false
 		}
 	}
+	// systems the method solves exactly in its first half step (A = I or A = 2I: every product is exact), so that
+	// the solver keeps being asked for iterations after it has terminated internally
+	if rapid.IntRange(0, 9).Draw(t, "identity-like") == 0 {
+		c.Sys.B = nil
+		if rapid.Bool().Draw(t, "twice") {
+			for i := 0; i < c.Sys.N; i++ {
+				c.Sys.B = append(c.Sys.B, sparseEntry{i, i, 1})
+			}
+		}
+	}
 	crit := rapid.IntRange(0, 3).Draw(t, "crit")
 	if crit == 3 && kit.Excluded("bicgstab-iters-only-nan") {
 		kit.CountExcluded("bicgstab-iters-only-nan")
@@ -427,7 +437,37 @@ func checkCG(c cgCase, o *kit.Obs) error {
 		return fmt.Errorf("BiCGSTAB (n=%d, MaxIters=%d, MSE=%g, MAE=%g, %d operator calls) returned a non-finite solution %v", n, c.MaxIters, c.MSE, c.MAE, ops, x)
 	}
 	if itersOnly {
-		// no tolerance is stated for an iteration-count-only configuration; the answer must at least be finite
+		// No tolerance is stated for an iteration-count-only configuration; the answer must be finite.  For A = I
+		// and A = 2I every product of the first half step is exact: s = r - alpha*A*r is exactly zero, so the
+		// method has found the solution and (as its comments say) stops updating.  Asking for more iterations
+		// must then keep returning that solution: once an iterate solves such a system exactly (residual exactly
+		// zero), every later iterate and the solver's final answer must do so too.  (Only for these systems: for
+		// a general matrix an iterate can have a computed residual of exactly zero by coincidence while the
+		// method's own recurrence residual is not zero, and later iterates may then legitimately differ by an ulp.)
+		identityLike := offdiag == 0
+		for i := range a {
+			if a[i][i] != a[0][0] || (a[0][0] != 1 && a[0][0] != 2) {
+				identityLike = false
+			}
+		}
+		if identityLike {
+			o.Label("identity-like")
+			it := numerical.NewBiCGSTAB(op, b, guess)
+			exactAt := -1
+			for i := 0; i < c.MaxIters; i++ {
+				r := maxAbsV(op(it.Iter()).Sub(b))
+				if r == 0 && exactAt < 0 {
+					exactAt = i
+					o.Label("exact-before-max-iters")
+				}
+				if exactAt >= 0 && r != 0 {
+					return fmt.Errorf("BiCGSTAB.Iter (A = %g*I, n=%d): iterate %d solved the system exactly, iterate %d has residual %g (the solver went back to a stale solution)", a[0][0], n, exactAt, i, r)
+				}
+			}
+			if exactAt >= 0 && maxAbsV(res) != 0 {
+				return fmt.Errorf("BiCGSTABSolver{MaxIters: %d} (A = %g*I, n=%d) returned a solution with residual %g although iterate %d of the same method solves the system exactly", c.MaxIters, a[0][0], n, maxAbsV(res), exactAt)
+			}
+		}
 		return nil
 	}
 	// the stated stopping rule, with 0.1% slack for a different summation order
